@@ -326,6 +326,7 @@ fn check_with<R: NsRd>(mut r: R, input: &[u8], expand: bool, hist: &History, loc
             }
             Obs::Ev(_, _, _) => toks.push(s.obs.clone()),
             Obs::Err(_) => return Err("generator produced a document R_tok rejects".into()),
+            Obs::Raw(_) => {}
         }
     }
     let mut m = Scope::default();
